@@ -9,6 +9,24 @@ From PV Require Import Model.MiniProto Model.Lower Model.Validate Model.Validity
 Import ListNotations.
 Open Scope Z_scope.
 
+(* ---- insertion sort keeps the elements, hence the sharing pairs ---- *)
+Lemma In_insert b x l : In b (insert_rng x l) <-> b = x \/ In b l.
+Proof.
+  induction l as [|y r IH]; cbn.
+  - intuition.
+  - destruct (rng_less x y); cbn.
+    + intuition.
+    + rewrite IH. intuition.
+Qed.
+
+Lemma In_sort b l : In b (sort_rngs l) <-> In b l.
+Proof.
+  induction l as [|x r IH]; cbn.
+  - tauto.
+  - rewrite In_insert, IH. intuition.
+Qed.
+
+
 (* ------------------------------------------------------------------------------------------ *)
 (* sharing a number, as an inductive over the list *)
 Section Share.
@@ -52,23 +70,6 @@ Proof.
       exists 0%nat, (S k), a, b, n. cbn. repeat split; try assumption; lia.
     + destruct IH as (i & j & x & y & n & Hij & Hx & Hy & Hnx & Hny).
       exists (S i), (S j), x, y, n. cbn. repeat split; try assumption; lia.
-Qed.
-
-(* ---- insertion sort keeps the elements, hence the sharing pairs ---- *)
-Lemma In_insert b x l : In b (insert_rng x l) <-> b = x \/ In b l.
-Proof.
-  induction l as [|y r IH]; cbn.
-  - intuition.
-  - destruct (rng_less x y); cbn.
-    + intuition.
-    + rewrite IH. intuition.
-Qed.
-
-Lemma In_sort b l : In b (sort_rngs l) <-> In b l.
-Proof.
-  induction l as [|x r IH]; cbn.
-  - tauto.
-  - rewrite In_insert, IH. intuition.
 Qed.
 
 Lemma hs_insert x l : has_share (insert_rng x l) <-> (exists b, In b l /\ share x b) \/ has_share l.
@@ -130,13 +131,14 @@ Lemma sort_sorted l : StronglySorted le_start (sort_rngs l).
 Proof. induction l as [|x r IH]; cbn; [constructor|now apply insert_sorted]. Qed.
 
 Lemma Forall_sort (P : Z * Z -> Prop) l : Forall P l -> Forall P (sort_rngs l).
-Proof. rewrite !Forall_forall. intros H b Hb. apply In_sort in Hb. now apply H. Qed.
+Proof. rewrite !Forall_forall. intros H b Hb. apply H. now apply (proj1 (In_sort b l)). Qed.
 
 Lemma sort_length l : length (sort_rngs l) = length l.
 Proof.
   assert (Hi : forall x l, length (insert_rng x l) = S (length l)).
   { intros x l0. induction l0 as [|y r IH]; cbn; [reflexivity|]. destruct (rng_less x y); cbn; [reflexivity|now rewrite IH]. }
-  induction l as [|x r IH]; cbn; [reflexivity|]. now rewrite Hi, IH.
+  induction l as [|x r IH]; [reflexivity|]. change (sort_rngs (x :: r)) with (insert_rng x (sort_rngs r)).
+  rewrite Hi, IH. reflexivity.
 Qed.
 
 Lemma app_not_nil {A} (x y : list A) : x ++ y <> [] <-> x <> [] \/ y <> [].
@@ -145,6 +147,9 @@ Proof.
   - split; [intros H; now right|intros [H|H]; [congruence|assumption]].
   - split; [intros _; left; discriminate|intros _; discriminate].
 Qed.
+
+Lemma cond_not_nil (c : bool) (e : ecls) : (if c then [e] else []) <> [] <-> c = true.
+Proof. destruct c; split; intros H; congruence. Qed.
 
 (* ------------------------------------------------------------------------------------------ *)
 (* the three algorithms, generic in the kind of range *)
@@ -185,9 +190,7 @@ Proof.
   - inversion Hwf as [|? ? Ha Hwf']; subst. inversion Hs as [|? ? Hs' Hall]; subst.
     rewrite app_not_nil, (hs_cons inr a (b :: r)), (IH b Hwf' Hs').
     assert (Hab : fst a <= fst b). { inversion Hall; subst. assumption. }
-    rewrite (head_share a b r Ha Hwf' Hs' Hab).
-    destruct (cmpS (fst b) (snd a)); split; intros [H|H]; try tauto; try (left; congruence); try (now right).
-    + left. discriminate.
+    rewrite (head_share a b r Ha Hwf' Hs' Hab), cond_not_nil. reflexivity.
 Qed.
 
 (* ranges_overlap_sorted_iff *)
@@ -265,7 +268,9 @@ Proof.
   pose proof (sort_sorted rs) as Hs. pose proof (Forall_sort wf rs Hwf) as Hw.
   assert (Hsome : in_some inr n rs <-> in_some inr n (sort_rngs rs)).
   { unfold in_some. split; intros [r [Hr Hi]]; exists r; (split; [now apply In_sort|assumption]). }
-  rewrite Hsome. clear Hsome. set (l := sort_rngs rs) in *. clearbody l. clear rs Hwf.
+  enough (exists b, in_sorted_ranges cmpE (sort_rngs rs) n = Some b /\ (b = true <-> in_some inr n (sort_rngs rs))) as (b0 & Hb0 & Hiff).
+  { exists b0. split; [assumption|]. rewrite Hiff. symmetry. exact Hsome. }
+  clear Hsome. set (l := sort_rngs rs) in *. clearbody l. clear rs Hwf.
   unfold in_sorted_ranges. set (pred := fun i : nat => cmpE (snd (nth i l (0, 0))) n).
   destruct (sort_search_spec pred (length l)) as (r & Hr & Hlen & Hlo & Hhi).
   { intros k k' Hk Hp. destruct (Nat.eq_dec k k') as [->|Hne]; [assumption|].
@@ -335,12 +340,12 @@ Proof. apply overlap_errs_correct with (wf := wf_cl); [exact cl_share|exact leb_
 Theorem tag_in_range_iff_lemma rs n :
   Forall wf_ho rs -> ~ two_share in_ho rs ->
   exists b, in_sorted_ranges Z.gtb (sort_rngs rs) n = Some b /\ (b = true <-> in_some in_ho n rs).
-Proof. apply in_sorted_ranges_correct with (wf := wf_ho); [exact ho_share|exact ho_in|exact ho_ends]. Qed.
+Proof. apply in_sorted_ranges_correct with (wf := wf_ho); [exact ho_in|exact ho_ends]. Qed.
 
 Theorem enum_number_in_range_iff_lemma rs n :
   Forall wf_cl rs -> ~ two_share in_cl rs ->
   exists b, in_sorted_ranges Z.geb (sort_rngs rs) n = Some b /\ (b = true <-> in_some in_cl n rs).
-Proof. apply in_sorted_ranges_correct with (wf := wf_cl); [exact cl_share|exact cl_in|exact cl_ends]. Qed.
+Proof. apply in_sorted_ranges_correct with (wf := wf_cl); [exact cl_in|exact cl_ends]. Qed.
 
 (* ------------------------------------------------------------------------------------------ *)
 (* the merge scan of reserved against extension ranges *)
@@ -350,8 +355,8 @@ Proof.
   unfold cross_share, share. split.
   - intros (x & b & n & [<- | Hx] & Hb & H1 & H2); [left; eauto|right; eauto 8].
   - intros [(b & Hb & n & H1 & H2) | (x & b & n & Hx & Hb & H1 & H2)].
-    + exists a, b, n. repeat split; try assumption. now left.
-    + exists x, b, n. repeat split; try assumption. now right.
+    + exists a, b, n. split; [now left|]. split; [assumption|]. split; assumption.
+    + exists x, b, n. split; [now right|]. split; [assumption|]. split; assumption.
 Qed.
 
 Lemma cross_cons_r xs b ys :
@@ -360,8 +365,8 @@ Proof.
   unfold cross_share, share. split.
   - intros (x & y & n & Hx & [<- | Hy] & H1 & H2); [left; exists x; split; [assumption|exists n; tauto]|right; eauto 8].
   - intros [(a & Ha & n & H1 & H2) | (x & y & n & Hx & Hy & H1 & H2)].
-    + exists a, b, n. repeat split; try assumption. now left.
-    + exists x, y, n. repeat split; try assumption. now right.
+    + exists a, b, n. split; [assumption|]. split; [now left|]. split; assumption.
+    + exists x, y, n. split; [assumption|]. split; [now right|]. split; assumption.
 Qed.
 
 Lemma cross_nil_l ys : ~ cross_share in_ho [] ys.
@@ -390,26 +395,20 @@ Proof.
       rewrite app_not_nil, cross_cons_l, Hspec.
       rewrite (head_share in_ho wf_ho Z.ltb ho_share ltb_mono r x xs Hr Hwx Hsx); [|lia].
       assert (Hhit : ((fst x <=? fst r) && (fst r <? snd x) || (fst r <=? fst x) && (fst x <? snd r)) = (fst x <? snd r)).
-      { unfold wf_ho in *. destruct (fst x <? snd r) eqn:E2; [apply Z.ltb_lt in E2|apply Z.ltb_ge in E2].
-        - apply orb_true_iff. right. apply andb_true_iff. split; [apply Z.leb_le|apply Z.ltb_lt]; lia.
-        - apply orb_false_iff. split; apply andb_false_iff.
-          + left. apply Z.leb_gt. lia.
-          + right. apply Z.ltb_ge. lia. }
-      rewrite Hhit. destruct (fst x <? snd r); split; intros [H|H]; try tauto; try (left; congruence); try (now right).
-      left. discriminate.
+      { unfold wf_ho in *.
+        destruct (Z.leb_spec (fst x) (fst r)), (Z.ltb_spec (fst r) (snd x)), (Z.leb_spec (fst r) (fst x)), (Z.ltb_spec (fst x) (snd r));
+          cbn; try reflexivity; lia. }
+      rewrite Hhit, cond_not_nil. reflexivity.
     + apply Z.ltb_ge in E. inversion Hsx as [|? ? Hsxs Hallx]; subst.
       destruct (IH (r :: rs) xs) as (l & Hl & Hspec); try assumption; [cbn; lia|].
       rewrite Hl. cbn [option_map]. eexists. split; [reflexivity|].
       rewrite app_not_nil, cross_cons_r, Hspec.
       rewrite (head_share in_ho wf_ho Z.ltb ho_share ltb_mono x r rs Hx Hwr Hsr E).
       assert (Hhit : ((fst x <=? fst r) && (fst r <? snd x) || (fst r <=? fst x) && (fst x <? snd r)) = (fst r <? snd x)).
-      { unfold wf_ho in *. destruct (fst r <? snd x) eqn:E2; [apply Z.ltb_lt in E2|apply Z.ltb_ge in E2].
-        - apply orb_true_iff. left. apply andb_true_iff. split; [apply Z.leb_le|apply Z.ltb_lt]; lia.
-        - apply orb_false_iff. split; apply andb_false_iff.
-          + right. apply Z.ltb_ge. lia.
-          + left. apply Z.leb_gt. lia. }
-      rewrite Hhit. destruct (fst r <? snd x); split; intros [H|H]; try tauto; try (left; congruence); try (now right).
-      left. discriminate.
+      { unfold wf_ho in *.
+        destruct (Z.leb_spec (fst x) (fst r)), (Z.ltb_spec (fst r) (snd x)), (Z.leb_spec (fst r) (fst x)), (Z.ltb_spec (fst x) (snd r));
+          cbn; try reflexivity; lia. }
+      rewrite Hhit, cond_not_nil. reflexivity.
 Qed.
 
 Lemma cross_sort xs ys : cross_share in_ho (sort_rngs xs) (sort_rngs ys) <-> cross_share in_ho xs ys.
@@ -424,6 +423,8 @@ Theorem cross_overlap_iff_lemma rsvr extr :
   exists l, merge_scan (length (sort_rngs rsvr) + length (sort_rngs extr)) (sort_rngs rsvr) (sort_rngs extr) = Some l
             /\ (l <> [] <-> cross_share in_ho rsvr extr).
 Proof.
-  intros Hr Hx. rewrite <- cross_sort.
-  apply merge_scan_correct; [lia|apply sort_sorted|apply sort_sorted|now apply Forall_sort|now apply Forall_sort].
+  intros Hr Hx.
+  destruct (merge_scan_correct (length (sort_rngs rsvr) + length (sort_rngs extr)) (sort_rngs rsvr) (sort_rngs extr))
+    as (l & Hl & Hspec); [lia|apply sort_sorted|apply sort_sorted|now apply Forall_sort|now apply Forall_sort|].
+  exists l. split; [assumption|]. rewrite Hspec. apply cross_sort.
 Qed.
